@@ -115,6 +115,24 @@ func runSimCheck(spec *simCheckSpec, args []string) int {
 		fmt.Printf("  scenario %-16s states=%-8d transitions=%-9d depth=%-3d dev<=%d completed=%d exhaustive=%v %s wall=%.1fs\n",
 			sc.Name, res.States, res.Transitions, res.MaxDepth, sc.MaxDev, res.DevCompleted, res.Exhaustive, res.Capped, res.Wall)
 	}
+	// vacuity guard: the subject of the property must have been reached somewhere
+	var vac []string
+	for _, k := range spec.MustReach {
+		reachedAny := false
+		for _, sc := range scenCov {
+			if r, ok := sc["reached"].(map[string]int); ok && r[k] > 0 {
+				reachedAny = true
+			}
+		}
+		if !reachedAny {
+			vac = append(vac, k)
+		}
+	}
+	if len(vac) > 0 {
+		exhaustive = false
+		run.Cov["vacuous"] = vac
+		fmt.Printf("NOTE %s: the exploration never reached %v - the run proves nothing about the property (exhaustive=false)\n", spec.Prop, vac)
+	}
 	if len(samples) == 0 {
 		samples = append(samples, "no history of depth >= 4 was explored")
 	}
